@@ -4,7 +4,7 @@ manifest is always schema-valid and in step with what the driver implements)."""
 import json, subprocess
 
 HOOK_COMMITS = ["ff49be5"]
-FIX_COMMITS = ["20bf16f", "aefc590", "f10f830", "24ec5ad", "9659f5f", "7e5c136", "f869cf2", "0e309c1", "9424101", "82caa03"]
+FIX_COMMITS = ["20bf16f", "aefc590", "f10f830", "24ec5ad", "9659f5f", "7e5c136", "f869cf2", "0e309c1", "9424101", "82caa03", "fadb2b4", "29dde06", "b3d3332"]
 
 NA = {
  "C12": "codec round-trip is a pure function of (input bytes, level); nothing in it depends on scheduling, time, I/O or faults, so a simulator would only be an input generator in disguise (DESIGN.md section 0)",
@@ -72,6 +72,21 @@ CHECKS.update({
    "per store call a drawn outcome - Get {ok, not-found although present, error, delayed with pike's locks held, truncated, garbage}, Set {ok, error, delayed, silently dropped}, Delete {ok, error, delayed} - landing inside operations with waiters, expiry and purges in progress; liveness, freshness (stale-hit, Age) and response-integrity oracles stay armed unchanged, plus the single-flight/retention oracle when the LRU is large; final probes after every lifetime (no immortal entry, no permanent error).",
    "single bit flips inside an otherwise well-formed record are not part of this fault plan (undetectable without an integrity check in the format; robustness under flips is covered by C09); purge effectiveness on the persisted copy is not asserted when the Delete itself was failed by the plan",
    "deterministic simulation: per-call store fault plans under concurrent waiters, expiry, purge"),
+})
+
+CHECKS.update({
+ "C15": ("exploration", "7.15",
+   "per run a location with a drawn subset of {rewrite, added request headers, added query parameters, added response headers} and an upstream Accept-Encoding override, plus a catch-all location on a second upstream; clients with extra headers, bodies, queries, matching / non-matching validators and Range reach the cache in cold, waiter, hit and hit-for-pass roles produced by the scheduler; the request logged by the simulated origin is compared with the client's request transformed by a small reference model, conditionals must be withheld exactly on the fetching role, the client gets 304 iff its validators match, and 304 / 206 replies are never replayed.",
+   "documented rewrite forms only (prefix removal); standard reverse-proxy header handling (hop-by-hop removal, X-Forwarded-For, empty User-Agent) is whitelisted; whether pike restores the in-memory request afterwards is a mechanism, not asserted",
+   "deterministic simulation: origin-side request log vs reference transformation, role produced by scheduling"),
+ "C16": ("exploration", "7.16",
+   "sequences of 1-5 valid configurations obtained by random mutations are applied by a reload task whose five steps interleave with client traffic at every yield; afterwards a probe battery is answered by the live-updated instance, the process image is replaced by a fresh instance with the final configuration (same simulated world) and the same battery is answered again: observation vectors (origin reached, request as seen by it, status, headers, Content-Encoding, encoded length, cache label) must be equal; requests to the unchanged server must not fail during updates, its cached entries must survive, a removed server must refuse service after its grace period.",
+   "updates are applied one at a time as main.go does (single watcher loop); the fresh instance is a re-initialisation inside the same OS process (all pike registries reset, compress registry restored to its built-in state); restart-only settings (cache size / hit-for-pass / store of a surviving cache, log format, admin) are held constant as documented",
+   "deterministic simulation: reload task interleaved with traffic + differential probing against a fresh instance"),
+ "C19": ("fault_enumeration", "7.19",
+   "scripted up / down / black-hole sequences on 1-4 upstream servers (primary / backup mixes, all four policies, tcp and http health checks) on the simulated network; the real health-check state machine of vicanso/upstream runs on the fake ticker, only the dial is simulated; after each event and a settle period a sequential batch must reach only servers that are up, backups only without a healthy primary, round robin evenly, 5xx at once with none healthy, and recover by itself.",
+   "uses a copy of vicanso/upstream v0.2.0 with a two-line dial / ping-transport seam (third_party/upstream); assertions are made only after a settle time that covers the checker's worst case (sequential probes, dropped ticks)",
+   "deterministic simulation: network fault sequences on the dial seam + fake clock"),
 })
 
 PENDING = {}
